@@ -377,6 +377,9 @@ def execMany (q : WQ) : List (List Nat) → List ExecAns → WQ
 /-- system calls of `dispose` -/
 inductive DSys (τ : Type) where
   | poll (s : Sys)
+  /-- `signal_delivery.handle().close(); signal_delivery.pending().for_each(drop)`: stop listening, forget the
+  signals nobody has seen yet (so that a pending termination signal cannot cut the closing sequence short) -/
+  | sigOff
   /-- `signal_delivery.handle().close()` -/
   | sigClose
   | tcsetattr (t : τ)
@@ -420,16 +423,16 @@ structure DisposeOut (ε σ τ : Type) where
 /-- `UnixTerminal::dispose` (called by `Drop`, which ignores the result) -/
 def dispose {τ : Type} (d : Dec ε σ) (epi : List (List Nat)) (saved : τ) (st : St ε σ) (env : DEnv) :
     DisposeOut ε σ τ :=
-  -- self.frames_drop()
+  -- self.frames_drop(); signal handle closed, pending signals dropped
   let st1 := { st with wq := st.wq.clearButLast }
   -- self.execute_many([...]).unwrap_or(())
   let st2 := { st1 with wq := execMany st1.wq epi env.exec }
   -- loop { match self.poll(Some(1 s)) … }
   match waitSync d env.polls st2 [] with
-  | (st3, log, false) => ⟨st3, log.map .poll, .blocked⟩
+  | (st3, log, false) => ⟨st3, .sigOff :: log.map .poll, .blocked⟩
   | (st3, log, true) =>
     -- self.signal_delivery.handle().close(); tcsetattr(tty, Flush, &self.termios_saved)?
-    ⟨st3, log.map .poll ++ [.sigClose, .tcsetattr saved], if env.restoreOk then .ok else .err⟩
+    ⟨st3, .sigOff :: log.map .poll ++ [.sigClose, .tcsetattr saved], if env.restoreOk then .ok else .err⟩
 
 /-! ## the part of `new_from_fd` that touches the line settings -/
 
@@ -666,6 +669,8 @@ def showDLog : List (DSys String) → List Nat → List String → List String
   | [], pend, acc => (if pend.isEmpty then acc else s!"W{hex (pend.map UInt8.ofNat)}" :: acc).reverse
   | .poll (.ttyWrite off k) :: rest, pend, acc => showDLog rest (pend ++ off.take k) acc
   | .poll _ :: rest, pend, acc => showDLog rest pend acc
+  | .sigOff :: rest, pend, acc =>
+    showDLog rest [] ("X" :: (if pend.isEmpty then acc else s!"W{hex (pend.map UInt8.ofNat)}" :: acc))
   | .sigClose :: rest, pend, acc =>
     showDLog rest [] ("C" :: (if pend.isEmpty then acc else s!"W{hex (pend.map UInt8.ofNat)}" :: acc))
   | .tcsetattr t :: rest, pend, acc =>
